@@ -90,7 +90,9 @@ def stringLoop (inp : Input) : Nat → Nat → Bool → Nat × Nat
       else if b == 34 then
         if escaped then stringLoop inp fuel (pos + 1) false
         else (pos, pos + 1)
-      else if b == 13 || b == 10 then (pos, pos + 1)      -- a line terminator ends the string, escaped or not
+      else if b == 13 || b == 10 then
+        -- a line terminator ends the string, escaped or not; a backslash with nothing left to escape is not part of the value
+        (if escaped then pos - 1 else pos, pos + 1)
       else if b == 92 then stringLoop inp fuel (pos + 1) (!escaped)
       else stringLoop inp fuel (pos + 1) false
     else (pos, pos)
